@@ -294,7 +294,11 @@ def units(tier):
     if tier == "thorough":
         shapes += [("fdf", [1, 1], {"packcrc": True}, False)]
     for (p, f, o, by_path) in shapes:
-        for s in sequences(maxlen if f else 1):
+        seqs = sequences(maxlen if f else 1)
+        if tier == "quick" and len(f) > 1:
+            # the heart of the property on several folders: decode, reset(), decode again (length 3, otherwise thorough only)
+            seqs = seqs + [x + "R" + y for x in DECODING for y in "AE"]
+        for s in seqs:
             us.append(Unit("session[%s,%s,%s]" % (RC.shape_name(p, f, o), "path" if by_path else "stream", s), M, "session",
                            dict(pattern=p, folders=f, opts=o, seq=s, by_path=by_path), 900))
     # the real constructor in mode 'r' on a file object whose position is anywhere (shared with C08's append variant)
